@@ -35,12 +35,30 @@ def build(o, gam, cls=None, **extra):
                score_class=o["sc"], equal_class=o["ec"], **extra)
 
 
+class IntInv:
+    """exact inverse for int64 images (float() would merge neighbours above 2^53)"""
+    def __init__(self, gam, lo, hi):
+        self.m = {int(gam(v)): v for v in range(lo, hi)}
+
+    def get(self, x, default):
+        try:
+            if isinstance(x, int):
+                return self.m.get(x, default)
+            return self.m.get(int(x), default) if float(x) == int(x) else default
+        except (OverflowError, ValueError):
+            return default
+
+
 def inv_map(gam, lo=-40, hi=40):
+    if gam.name == "big_int":
+        return IntInv(gam, lo, hi)
     return {float(gam(v)): v for v in range(lo, hi)}
 
 
 def alpha_obj(s, inv):
     def back(a):
+        if isinstance(inv, IntInv):
+            return [inv.get(x, -999) for x in np.asarray(a).tolist()]
         return [inv.get(float(x), -999) for x in np.asarray(a).tolist()]
     return {"pos": back(s.pos), "neg": back(s.neg), "ep": int(s.nb_easy_pos),
             "en": int(s.nb_easy_neg), "sc": s.score_class.value, "ec": s.equal_class.value}
